@@ -28,7 +28,7 @@ def view_types(T: Types):
                                      ("max_retries", INT)])
     T.TaskRec = Record("TaskView", [("task_id", TASK), ("conf", T.TaskConf)])
     T.CallRec = Record("CallView", [("task", T.TaskRec), ("call_id", CALL)])
-    T.Invocation = Record("InvocationView", [("invocation_id", ID), ("call", T.CallRec), ("task", T.TaskRec)])
+    T.Invocation = Record("InvocationView", [("invocation_id", ID), ("call", T.CallRec), ("task", T.TaskRec), ("parent_invocation_id", Opt(ID))])
     T.InvocationV = T.Invocation
     # runner_id identifies the context that makes a request; root_runner_id is the top of its parent chain (a worker's runner)
     T.RunnerCtx = Record("RunnerContext", [("runner_id", STR), ("root_runner_id", STR)])
